@@ -40,7 +40,7 @@ def _running_leaves(prog):
     return [lf for lf in gen_sched.leaves_of(prog["doers"]) if lf.get("enter") == "ok"]
 
 
-def make_case(rng, path, *, nmax=8, depth=3, mixed_tocks=True):
+def make_case(rng, path, *, nmax=8, depth=3, mixed_tocks=True, readd=False):
     group_tocks = (0.0, 0.0, 0.0, 0.5, 1.0) if mixed_tocks else (0.0,)
     prog = gen_sched.gen_prog(rng, dyadic=True, nmax=nmax, depth=depth,
                               group_p=rng.choice([0.0, 0.3, 0.5]), group_tocks=group_tocks,
@@ -79,6 +79,8 @@ def make_case(rng, path, *, nmax=8, depth=3, mixed_tocks=True):
     elif path == "remove" and run_leaves:
         scheds = _schedulers(prog)
         nacts = rng.randint(1, 3)
+        if readd and rng.random() < 0.5:
+            nacts = 1          # a re-add is only scripted next to a single removal (no other doer's removal interferes)
         for _ in range(nacts):
             caller = rng.choice(run_leaves)
             sid, members = rng.choice(scheds)
@@ -90,7 +92,23 @@ def make_case(rng, path, *, nmax=8, depth=3, mixed_tocks=True):
                 continue
             ids_ = rng.sample(cand, rng.randint(1, min(3, len(cand))))
             k = rng.randint(1, (caller["end"][0] if caller.get("end") else 5))
-            caller.setdefault("acts", {}).setdefault(str(k), []).append(["remove", sid, ids_, False])
+            fresh = readd and rng.random() < 0.5      # name bound-method doers afresh: equal, but another object
+            caller.setdefault("acts", {}).setdefault(str(k), []).append(["remove", sid, ids_, False, fresh])
+            leaf_ids = [i for i in ids_ if next(m for m in members if m["id"] == i)["kind"] != "dodoer"]
+            k2 = k + rng.randint(1, 3)
+            group = next((g for g in gen_sched.groups_of(prog["doers"]) if g["id"] == sid), None)
+            # the scheduler must still be running when the doers come back: the Doist, an always-DoDoer, or a DoDoer that
+            # keeps another member which never finishes (re-adding to a DoDoer that has completed is misuse, not C01)
+            stays = group is None or group.get("always") or any(
+                c["id"] not in ids_ and c["kind"] != "dodoer" and c.get("enter") == "ok" and c.get("end") is None
+                for c in group["doers"])
+            if readd and nacts == 1 and stays and leaf_ids and caller["id"] not in ids_ and \
+                    sid in live_schedulers(prog, caller["id"]) and (caller.get("end") is None or caller["end"][0] >= k2):
+                # the removed (force-closed) doers are added again later: a second, separate lifecycle each
+                caller["acts"].setdefault(str(k2), []).append(["extend", sid, leaf_ids, False, rng.random() < 0.5])
+                case["readd"] = True
+                if prog["limit"] is None:
+                    prog["limit"] = prog["tock"] * 12
         if prog["limit"] is None and gen_sched.needs_limit(prog["doers"]):
             prog["limit"] = prog["tock"] * 12
     if path == "hook-acts":
